@@ -19,7 +19,7 @@ import (
 // ---------------------------------------------------------------- sequential cases (E1, virtual time)
 
 type seqOp struct {
-	K   byte          // 'a' alloc, 'd' dealloc, 'g' lookup, 's' pool stats, 'f' flush
+	K   byte          // 'a' alloc, 'd' dealloc, 'g' lookup, 's' pool stats, 'f' flush, 'P' apply step Sub of the address plan
 	Sub int           // subscriber index
 	D   time.Duration // virtual time that passes before the op (>= 1ns, so every op has its own instant)
 }
@@ -32,6 +32,11 @@ type seqCase struct {
 	Seed    uint64
 	WithMap bool
 	Family  string
+	// Plan, when set, replaces "AddPublicIP for the first NPub default addresses": the first PlanInit steps
+	// configure the pool before the first operation, the others are applied by 'P' operations (pubcfg_test.go).
+	Plan     []pubStep
+	PlanInit int
+	Style    string
 }
 
 func (c *seqCase) opsKey() string {
@@ -95,7 +100,11 @@ func runSeq(c *seqCase, tl *tally) bool {
 		}
 		return rng.IntN(n)
 	}
-	mgr := newManager(g, c.NPub)
+	nPubInit := c.NPub
+	if c.Plan != nil {
+		nPubInit = 0
+	}
+	mgr := newManager(g, nPubInit)
 	dir := ""
 	if c.Mode.File {
 		d, err := os.MkdirTemp("", "c10log")
@@ -126,14 +135,24 @@ func runSeq(c *seqCase, tl *tally) bool {
 		}
 	}
 	pubs := map[string]bool{}
-	for i := 0; i < c.NPub; i++ {
-		pubs[pubIP(i).String()] = true
+	pubList := pubNames(nPubInit)
+	for _, p := range pubList {
+		pubs[p] = true
 	}
 
 	held := map[string]blk{}      // the model: subscriber -> block it was told
 	subIDs := map[uint32]string{} // SubscriberID -> subscriber
 	var hist []string
 	sk := &sink{g: g, nPub: c.NPub, mode: c.Mode.String(), family: c.Family, hist: func() []string { return append([]string(nil), hist...) }}
+	var pc *pubCfg
+	if c.Plan != nil {
+		pc = newPubCfg(c, mgr, sk, tl, pubs, &hist)
+		for i := 0; i < c.PlanInit; i++ {
+			pc.apply(i)
+		}
+		pubList = pc.list
+		pc.checkPool("after the initial configuration")
+	}
 	lm := &logModel{}
 	var recsAll []logRec
 	var fileOff int64
@@ -208,7 +227,11 @@ func runSeq(c *seqCase, tl *tally) bool {
 				sort.Strings(others)
 				for _, o := range others {
 					if ob := held[o]; ob.overlaps(v.B) {
-						sk.report(compAlloc, "no-overlap", overlapClass(g, held, v.B, ob), fmt.Sprintf("alloc(%s) returned %s while %s still holds %s", name, v.B, o, ob))
+						cls := overlapClass(g, held, v.B, ob)
+						if pc != nil && pc.added[v.B.Pub] > 1 {
+							cls = "public-address-added-more-than-once" // a different cause than a wrong block index: the same address sits in the pool twice
+						}
+						sk.report(compAlloc, "no-overlap", cls, fmt.Sprintf("alloc(%s) returned %s while %s still holds %s", name, v.B, o, ob))
 						tl.add("overlaps_observed", 1)
 						break
 					}
@@ -272,6 +295,13 @@ func runSeq(c *seqCase, tl *tally) bool {
 			tl.add("op_flush", 1)
 			lg.Flush()
 			lg.FlushPortBlocks()
+		case 'P':
+			pc.apply(op.Sub)
+			pubList = pc.list
+			pc.checkPool(fmt.Sprintf("after op %d", k+1))
+		}
+		if pc != nil && op.K == 'a' {
+			pc.afterAlloc(held, name, k+1)
 		}
 
 		// lookups: the manager's view of who holds what must agree with what it told the callers
@@ -336,7 +366,7 @@ func runSeq(c *seqCase, tl *tally) bool {
 		synctest.Wait()
 		pull()
 		if c.Mode.Flush == "explicit" {
-			n, cls, desc := compareAttribution(g, c.NPub, heldList, lm, focus, rnd)
+			n, cls, desc := compareAttribution(g, pubList, heldList, lm, focus, rnd)
 			tl.add("attribution_probes_in_order", n)
 			if cls != "" {
 				sk.report(compLog, "attribution-in-order", cls, fmt.Sprintf("after op %d: %s", k+1, desc))
@@ -344,13 +374,17 @@ func runSeq(c *seqCase, tl *tally) bool {
 		}
 	}
 
+	if pc != nil {
+		pc.checkPool("at the end of the history")
+		pc.finish(nontrivial)
+	}
 	// shutdown flushes whatever is buffered
 	synctest.Wait()
 	mgr.Stop()
 	stopped = true
 	synctest.Wait()
 	pull()
-	n, cls, desc := compareAttribution(g, c.NPub, heldList, lm, nil, rnd)
+	n, cls, desc := compareAttribution(g, pubList, heldList, lm, nil, rnd)
 	tl.add("attribution_probes_in_order", n)
 	if cls != "" {
 		sk.report(compLog, "attribution-in-order", cls, "after shutdown (everything flushed): "+desc)
@@ -378,7 +412,7 @@ func runSeq(c *seqCase, tl *tally) bool {
 			lmT.apply(sorted[p])
 			p++
 		}
-		n, cls, desc := compareAttribution(g, c.NPub, heldT, lmT, sn.Focus, rnd)
+		n, cls, desc := compareAttribution(g, pubList, heldT, lmT, sn.Focus, rnd)
 		tl.add("attribution_probes_by_time", n)
 		tl.add("instants_judged_by_time", 1)
 		if cls != "" {
